@@ -43,7 +43,7 @@ ASSUMPTIONS = [
     "nothing is asserted about WHICH verdict is returned (C07/C08)",
 ]
 TIERS = {
-    "quick": {"runs": 48, "chunk": 1, "wall": 80, "chunk_timeout": 500, "selftest": 4},
+    "quick": {"runs": 36, "chunk": 1, "wall": 80, "chunk_timeout": 500, "selftest": 4},
     "thorough": {"runs": 700, "chunk": 1, "wall": 800, "chunk_timeout": 900, "selftest": 8},
 }
 ISOLATE_RUNS = True
@@ -99,6 +99,13 @@ def small_tree(rng):
         n["items"] = items
 
     trim(root)
+    if rng.random() < 0.4:
+        # one string literal that is awkward for anything that scans the text itself: ends in an escaped backslash,
+        # holds an escaped quote, a tab, braces or comment openers
+        structs = [it for n, _ in K.nodes_of(root) for it in n["items"] if it["kind"] == "struct"]
+        if structs:
+            rng.choice(rng.choice(structs)["fields"])["unit"] = rng.choice(
+                ["C:\\\\", "q\\\"uote", "a\tb", "{", "}", "/* x", "// y", "x\\\\\\\\"])
     return root
 
 
